@@ -235,7 +235,9 @@ func C13(r *ev.Run) {
 			return
 		}
 		s := sched.New(true)
-		s.IsGate = func(p string, a []interface{}) bool { return p == "parser.lbrace.override" || p == "parser.lbrace.restore" }
+		s.IsGate = func(p string, a []interface{}) bool {
+			return p == "parser.lbrace.override" || p == "parser.lbrace.restore"
+		}
 		verifhook.Set(s.Handle)
 		var mu sync.Mutex
 		got := map[string]string{}
